@@ -36,7 +36,7 @@ def _is_health(v, name):
 def r1(ctx):
     n = 0
     for fn, field in (("update_from_account_reconnecting", "account"), ("update_from_market_reconnecting", "market_data")):
-        b = ctx.fbody(name=fn, self_adt=CS, trait="")
+        b = ctx.fibody(name=fn, self_adt=CS, trait="")
         st = b.stores()
         glob = [s for s in st if render(s[2]) == "self.global"]
         link = [s for s in st if _link(s[2], field)]
@@ -58,7 +58,7 @@ def r1(ctx):
 def r2(ctx):
     n = 0
     for fn, field in (("update_from_account_event", "account"), ("update_from_market_event", "market_data")):
-        b = ctx.fbody(name=fn, self_adt=CS, trait="")
+        b = ctx.fibody(name=fn, self_adt=CS, trait="")
         st = b.stores()
         glob = [s for s in st if render(s[2]) == "self.global"]
         link = [s for s in st if _link(s[2], field)]
@@ -70,6 +70,7 @@ def r2(ctx):
             continue
         n += 1
         lg, gg = b.guard(link[0][0]), b.guard(glob[0][0])
+        fa = common.forall_loop(b, glob[0][0])
 
         def norm(g):
             out = set()
@@ -85,11 +86,10 @@ def r2(ctx):
                         what = "global" if render(l) == "self.global" else ("link" if _link(l, field) else render(l))
                         out.add((what, c[0] == "eq"))
                         continue
-                if a[0] == "bool" and a[1][0] == "call" and a[1][1].endswith("Iterator::all"):
-                    it, f = a[1][2]
-                    okall = (it[0] == "call" and mir.short(it[1]) == "ConnectivityStates::exchange_states" and render(it[2][0]) == "self"
-                             and f[0] == "fnitem" and mir.short(f[1]) == "ConnectivityState::all_healthy")
-                    out.add(("all_healthy" if okall else "all(?)", a[2]))
+                if a[0] == "is" and a[2] == frozenset(["None"]) and a[1][0] == "call" and a[1][1].endswith("Iterator::next"):
+                    # exhaustion of a loop: must be the for-all loop over every exchange with predicate all_healthy
+                    out.add(("all_healthy" if fa and fa[0] in ("ConnectivityStates::exchange_states(self)", "IndexMap::values(self.exchanges)")
+                             and fa[1] == "ConnectivityState::all_healthy($x)" else "loop(?)", True))
                     continue
                 out.add((mir.render_atom(a), True))
             return out
@@ -101,20 +101,19 @@ def r2(ctx):
                   "global becomes healthy only when every exchange's links are healthy (recomputed conjunction)",
                   sites=[glob[0][4]["sp"]], got=render_guard(gg), key="guard")
         # the conjunction is evaluated after the link store
-        alls = [bi for bi, t, tm in b.real_calls() if tm[1].endswith("Iterator::all")]
         lb, lsi = link[0][0], link[0][1]
-        ok_after = len(alls) == 1 and (b.dominates(lb, alls[0]))
+        ok_after = fa is not None and b.dominates(lb, fa[2]) and lb != fa[2]
         ctx.check("ConnectivityStates::" + fn + ":global", ok_after,
                   "all_healthy is evaluated after the link has been marked healthy", key="order")
         mut = [mir.short(tm[1]) for bi, t, tm in b.real_calls() if common.mutates_self(b, t, tm)]
         ctx.check("ConnectivityStates::" + fn, set(mut) <= {"ConnectivityStates::connectivity_mut", "ConnectivityStates::connectivity_index_mut"},
                   "no other mutation", got=mut, key="no-other-mutation")
     ctx.floor("event updaters", n, 2)
-    es = ctx.fbody(name="exchange_states", self_adt=CS, trait="")
+    es = ctx.fibody(name="exchange_states", self_adt=CS, trait="")
     ctx.check("ConnectivityStates::exchange_states", render(es.return_term()) == "IndexMap::values(self.exchanges)",
               "iterates every exchange's state", got=render(es.return_term()), key="all-exchanges")
     for fn in ("connectivity_mut", "connectivity_index_mut"):
-        cb = ctx.fbody(name=fn, self_adt=CS, trait="")
+        cb = ctx.fibody(name=fn, self_adt=CS, trait="")
         look = [tm for bi, t, tm in cb.real_calls() if mir._strip_generics(tm[1]).endswith(("::get_mut", "::get_index_mut"))]
         ctx.check("ConnectivityStates::" + fn, len(look) == 1 and render(look[0][2][0]) == "self.exchanges" and
                   render(look[0][2][1]) in ("key", "key.0"), "looks up the addressed exchange in self.exchanges",
@@ -122,7 +121,7 @@ def r2(ctx):
 
 
 def r3(ctx):
-    b = ctx.fbody(name="all_healthy", self_adt=C1, trait="")
+    b = ctx.fibody(name="all_healthy", self_adt=C1, trait="")
     cases = b.expanded_cases(0)
 
     def val(cell):
@@ -176,7 +175,7 @@ def r4(ctx):
                   "only the matching connectivity updaters write this health field", got=bad, sites=[x[2] for x in bad], key="writers")
         ctx.floor("writers of %s.%s" % (mir.short(adt).split("::")[-1], fld), n, 2)
     # constructors start all-reconnecting
-    g = ctx.body(ctx.find(path="barter::engine::state::connectivity::generate_empty_indexed_connectivity_states"))
+    g = ctx.ibody(ctx.find(path="barter::engine::state::connectivity::generate_empty_indexed_connectivity_states"))
     rt = g.return_term()
     f = dict(zip(rt[2], rt[3])) if rt[0] == "agg" else {}
     ctx.check("generate_empty_indexed_connectivity_states", "global" in f and _is_health(f["global"], "Reconnecting"),
@@ -184,7 +183,7 @@ def r4(ctx):
     d = [i for i in ctx.facts.impls if i.get("self_adt") == "barter::engine::state::connectivity::Health" and i.get("trait") == "std::default::Default"]
     ok = False
     if d:
-        db = ctx.body(d[0]["items"][0]["def"])
+        db = ctx.ibody(d[0]["items"][0]["def"])
         ok = _is_health(db.return_term(), "Reconnecting")
     ctx.check("Health::default", ok, "default link health is Reconnecting", key="default")
 
@@ -194,7 +193,7 @@ def r5(ctx):
     for fn, upd, item_callee, evvar in (
             ("update_from_account_stream", "update_from_account_reconnecting", "EngineState::update_from_account", "AccountStreamEvent"),
             ("update_from_market_stream", "update_from_market_reconnecting", "EngineState::update_from_market", "MarketStreamEvent")):
-        b = ctx.fbody(name=fn, self_adt=ENG, trait="")
+        b = ctx.fibody(name=fn, self_adt=ENG, trait="")
         calls = b.real_calls()
 
         def arm(bi, variant):
@@ -230,7 +229,7 @@ def r5(ctx):
     # EngineState marks the link healthy from the event's own exchange
     ES = "barter::engine::state::EngineState"
     for fn, upd in (("update_from_account", "update_from_account_event"), ("update_from_market", "update_from_market_event")):
-        b = ctx.fbody(name=fn, self_adt=ES, trait="")
+        b = ctx.fibody(name=fn, self_adt=ES, trait="")
         cs = [(bi, t, tm) for bi, t, tm in b.real_calls() if mir.short(tm[1]) == "ConnectivityStates::" + upd]
         ok = len(cs) == 1 and [render(a) for a in cs[0][2][2]] == ["self.connectivity", "event.exchange"] and \
             b.guard(cs[0][0]) == frozenset([frozenset()])
